@@ -213,6 +213,10 @@ func coordinator(c *Check, tier string) int {
 			out := filepath.Join(tmp, fmt.Sprintf("w%d.json", k))
 			cmd := exec.Command(self, c.ID, tier, "--worker", fmt.Sprintf("%d/%d", k, shards), "--out", out)
 			cmd.Env = append(os.Environ(), "GOMAXPROCS=1", "GOMEMLIMIT=6GiB")
+			if c.ID == "C19" {
+				rl := filepath.Join(tmp, fmt.Sprintf("race-w%d", k))
+				cmd.Env = append(cmd.Env, "GORACE=halt_on_error=0 exitcode=0 log_path="+rl, "VERIF_RACELOG="+rl)
+			}
 			cmd.Stderr = os.Stderr
 			cmd.Stdout = os.Stderr
 			if err := cmd.Run(); err != nil {
@@ -297,7 +301,41 @@ func coordinator(c *Check, tier string) int {
 		// replay 5x: identical trace hash and identical verdict required
 		var h0 uint64
 		var trace []string
-		for i := 0; i < 5; i++ {
+		if c.ID == "C19" {
+			// the race detector reports a given pair of stacks once per process: confirm in fresh processes
+			ok := true
+			for i := 0; i < 2 && ok; i++ {
+				spec, _ := json.Marshal(map[string]any{"tier": tier, "scenario": f.Scenario, "prefix": f.Prefix})
+				sp := filepath.Join(tmp, fmt.Sprintf("confirm-%d.json", i))
+				_ = os.WriteFile(sp, spec, 0o644)
+				rl := filepath.Join(tmp, fmt.Sprintf("race-confirm-%d-%d", len(printed), i))
+				cmd := exec.Command(self, c.ID, "--confirm", sp)
+				cmd.Env = append(os.Environ(), "GOMAXPROCS=1", "GORACE=halt_on_error=0 exitcode=0 log_path="+rl, "VERIF_RACELOG="+rl)
+				outb, err := cmd.Output()
+				var res struct {
+					Sig   string
+					Trace []string
+					Hash  uint64
+				}
+				if err != nil || json.Unmarshal(outb, &res) != nil || res.Sig != f.V.Sig {
+					fmt.Fprintf(os.Stderr, "confirm run %d: err=%v sig=%q want %q out=%.200s\n", i, err, res.Sig, f.V.Sig, outb)
+					ok = false
+					break
+				}
+				if i == 0 {
+					h0, trace = res.Hash, res.Trace
+					if b, err := os.ReadFile(fmt.Sprintf("%s.%d", rl, cmd.Process.Pid)); err == nil {
+						trace = append(trace, "---- race detector report ----")
+						trace = append(trace, strings.Split(string(b), "\n")...)
+					}
+				}
+			}
+			if !ok {
+				fmt.Fprintf(os.Stderr, "machinery error: race %q of %s does not replay deterministically\n", f.V.Sig, f.Scenario)
+				return 2
+			}
+		}
+		for i := 0; i < 5 && c.ID != "C19"; i++ {
 			ex, _, v := explore.RunOnce(sc, f.Prefix, true)
 			if v == nil || v.Sig != f.V.Sig {
 				fmt.Fprintf(os.Stderr, "machinery error: violation %q of %s does not replay deterministically\n", f.V.Sig, f.Scenario)
@@ -517,6 +555,37 @@ func main() {
 	}
 	if os.Args[2] == "--replay" {
 		os.Exit(replay(c, os.Args[3]))
+	}
+	if os.Args[2] == "--confirm" {
+		b, _ := os.ReadFile(os.Args[3])
+		var m struct {
+			Tier     string `json:"tier"`
+			Scenario string `json:"scenario"`
+			Prefix   []int  `json:"prefix"`
+		}
+		_ = json.Unmarshal(b, &m)
+		for _, sc := range c.Scenarios(m.Tier) {
+			if sc.Name == m.Scenario {
+				ex, _, v := explore.RunOnce(sc, m.Prefix, true)
+				// A cold process orders goroutines through one-time initialisation inside the standard
+				// library (sync.Once, type caches): if the report does not appear, warm up and retry.
+				for try := 0; v == nil && try < 3; try++ {
+					if _, _, vw := explore.RunOnce(sc, nil, false); vw != nil {
+						v = vw // the detector reports a pair of stacks only once per process
+						break
+					}
+					ex, _, v = explore.RunOnce(sc, m.Prefix, true)
+				}
+				res := map[string]any{"Sig": "", "Trace": ex.Trace, "Hash": ex.TraceHash}
+				if v != nil {
+					res["Sig"] = v.Sig
+				}
+				ob, _ := json.Marshal(res)
+				os.Stdout.Write(ob)
+				os.Exit(0)
+			}
+		}
+		os.Exit(2)
 	}
 	tier := os.Args[2]
 	if len(os.Args) >= 7 && os.Args[3] == "--worker" {
